@@ -217,3 +217,47 @@ Proof.
   apply (qlin_perm (fun s => Qabs (coeff 0 (l_cur x) s)) (fun s => nth j (xf s) 0)).
   rewrite Hs, Hs'. apply Permutation_map. exact Hp.
 Qed.
+
+(* ------------------------------------------------------------------------------------------ *)
+(* JSON round trip *)
+Section Json.
+  Context {A : Type}.
+  Variable zero : A.
+
+  Lemma json_reload_lossless : forall j : jnet A, json_reload false j = j.
+  Proof. intros [n d]. unfold json_reload. simpl. rewrite orb_false_r. reflexivity. Qed.
+
+  (* on a reachable network that still has a constraint, or never had one, the reload changes nothing — whatever
+     the serialisation does with row-less matrices — and operations on the reloaded network are the plain ones *)
+  Theorem json_roundtrip_identity : forall (ops : list (op A)) lossy,
+    let n := run zero ops net0 in
+    cnames n <> [] \/ cmat n = None ->
+    json_reload lossy (mkJ n false) = mkJ n false /\
+    forall o, jstep zero o (mkJ n false) = (fst (step zero o n), mkJ (snd (step zero o n)) false).
+  Proof.
+    intros ops lossy n H. split.
+    - unfold json_reload. simpl. destruct lossy; auto.
+      destruct (cmat n) as [[|r m]|] eqn:E; auto.
+      destruct H as [H | H]; [|discriminate].
+      destruct (aligned_lengths zero ops) as (_ & Hl & _). fold n in Hl.
+      destruct (Hl [] E) as [Hlen _]. simpl in Hlen.
+      destruct (cnames n); [contradiction | discriminate].
+    - intros o. unfold jstep. simpl. reflexivity.
+  Qed.
+End Json.
+
+(* the failing history: every constraint removed, JSON round trip, then a well-formed add_constraint *)
+Definition json_ops : list (op Q) :=
+  [ ORegister 1%nat 208 30; ORegister 2%nat 208 (-30);
+    OAdd [(1%nat, 1%Q)] 10 (Some "pod"%string); ORemove "pod"%string ].
+
+Lemma json_refuted :
+  exists (ops : list (op Q)) (o : op Q),
+    let j := json_reload true (mkJ (run 0%Q ops net0) false) in
+    let r := jstep 0%Q o j in
+    fst (step 0%Q o (run 0%Q ops net0)) = None /\               (* accepted by the original network *)
+    fst r = Some "ValueError"%string /\                          (* raises on the reloaded one *)
+    List.length (mags (jn (snd r))) = 1%nat /\ cnames (jn (snd r)) = [] /\ cmat (jn (snd r)) = Some [].
+Proof.
+  exists json_ops, (OAdd [(2%nat, 1%Q)] 5 (Some "pod2"%string)). vm_compute. repeat split; reflexivity.
+Qed.
